@@ -180,8 +180,11 @@ def run_value_monitor(chk, pid, monitor, corpus, seed, tier):
                 # a value that matched no union arm failed in every arm: a named defect construct owning *any* of those
                 # failures may be the cause
                 for other in f.get("also") or []:
-                    o2 = owner_item(meta, root, other)
+                    o2 = owner_item(meta, root, other)      # "" = the root type's own text
                     kt = sorted(set(kt) | {t for t in key_tags(meta, o2) if t.startswith("dep:k:")})
+                # ... and one inside a type *argument* of the registered instantiation
+                for a in ent.get("arg_items", []):
+                    kt = sorted(set(kt) | {t for t in key_tags(meta, a) if t.startswith("dep:k:")})
                 key = f"{pid}|fail|{reason_class(f.get('reason', ''))}|{owner}|{','.join(kt)}"
                 what = (f"{stage}: {f.get('reason')} at /{'/'.join(f.get('path', []))} (node in declaration of {owner}) for value "
                         f"{str(f.get('value', f.get('witness')))[:200]} (type {ev.get('rust')}, ts {str(ev.get('ts'))[:300]})")
